@@ -765,7 +765,6 @@ def gen_cases(tier, rng):
     s3 = list(strings(3))
     for p in s3:
         yield from single_ops(p)
-    l3 = [p for p in s3 if p["q"] == 0]
     if T:
         for a in s3:                  # all 256^2 ordered pairs of n = 3 incl. all four phases on both sides
             for b in s3:
